@@ -498,7 +498,9 @@ def strip_payload(t):
 def unwrap_payload(t):
     """identity through Option/Result payload extraction: ('v',X,_) and ('f',('v',X,_),'0') -> X"""
     while isinstance(t, tuple) and t:
-        if t[0] == 'v':
+        if t[0] == 'call' and t[1].endswith('Try>::branch') and t[2]:
+            t = t[2][0]   # `x?`: the Continue payload of branch(x) is the Some/Ok payload of x
+        elif t[0] == 'v':
             t = t[1]
         elif t[0] == 'f' and t[2] == '0' and isinstance(t[1], tuple) and t[1] and t[1][0] == 'v' and '#' in str(t[1][2]):
             # `(X as Some#1).0` is the payload; ('v', X, 'Some') (from unwrap()) already *is* the payload, so `.0` on it is a real field
@@ -562,3 +564,108 @@ def callee_name(t):
     if t.get('rk') == 'item' and t.get('res'):
         return t['res']
     return t['callee']
+
+
+def outcome_edges(F, b, call_bi):
+    """(success_edge, failure_edge) of the branch taken on the Option/Result returned by the call ending block call_bi:
+    a discriminant switch on the result itself (Some/Ok vs None/Err), on Try::branch of it (`?`: Continue vs Break), or on
+    is_some/is_none/is_ok/is_err of it.  Edges are (switch block, target)."""
+    cfg, pv = F.cfg(b), F.prov(b)
+    KEEP = ('map_err', 'map', 'ok_or', 'ok_or_else', 'ok', 'as_ref', 'as_mut', 'copied', 'cloned', 'inspect', 'inspect_err')
+
+    def peel(x):
+        # combinators that turn Some/Ok into Some/Ok and None/Err into None/Err keep the outcome of what they wrap
+        while isinstance(x, tuple) and x and x[0] == 'call' and x[3] != call_bi and x[1].split('::')[-1] in KEEP and \
+                (x[1].startswith('std::option::Option::') or x[1].startswith('std::result::Result::')) and x[2]:
+            x = x[2][0]
+        return x
+    for bi in sorted(cfg.reach):
+        tt = b['blocks'][bi]['term']
+        if tt['k'] != 'switch':
+            continue
+        term = pv.of_operand(tt['op'])
+        if isinstance(term, tuple) and term and term[0] == 'discr':
+            src = term[1]
+            if isinstance(src, tuple) and src and src[0] == 'call' and src[1].endswith('Try>::branch') and src[2]:
+                src = ('call', src[1], (peel(src[2][0]),) + tuple(src[2][1:]), src[3])
+            else:
+                src = peel(src)
+            adt = None
+            for s in b['blocks'][bi]['stmts']:
+                if s['k'] == 'assign' and s['rv']['k'] == 'discr' and s['dst']['l'] == tt['op']['pl']['l']:
+                    adt = s['rv'].get('adt')
+            if isinstance(src, tuple) and src and src[0] == 'call' and src[3] == call_bi:
+                good_v = 1 if adt == 'std::option::Option' else 0   # Some = 1; Ok = 0
+                goods = [tg for v, tg in tt['targets'] if v == good_v]
+                bads = [tg for v, tg in tt['targets'] if v != good_v]
+                g = goods[0] if goods else tt['otherwise']
+                bd = bads[0] if bads else tt['otherwise']
+                return (bi, g), (bi, bd)
+            if isinstance(src, tuple) and src and src[0] == 'call' and src[1].endswith('Try>::branch') and src[2] and isinstance(src[2][0], tuple) and src[2][0] and src[2][0][0] == 'call' and src[2][0][3] == call_bi:
+                conts = [tg for v, tg in tt['targets'] if v == 0]
+                brks = [tg for v, tg in tt['targets'] if v == 1]
+                return (bi, conts[0] if conts else tt['otherwise']), (bi, brks[0] if brks else tt['otherwise'])
+        if isinstance(term, tuple) and term and term[0] == 'call' and term[1].split('::')[-1] in ('is_some', 'is_none', 'is_ok', 'is_err') and term[2]:
+            src = strip_payload(term[2][0])
+            if isinstance(src, tuple) and src and src[0] == 'call' and src[3] == call_bi:
+                z = [tg for v, tg in tt['targets'] if v == 0]
+                te, fe = (bi, tt['otherwise']), (bi, z[0] if z else tt['otherwise'])
+                return (te, fe) if term[1].split('::')[-1] in ('is_some', 'is_ok') else (fe, te)
+    return None, None
+
+
+def subst_full(t, args):
+    """substitute parameters in an arbitrary term"""
+    if not isinstance(t, tuple) or not t:
+        return t
+    if t[0] == 'param':
+        i = t[1] - 1
+        return args[i] if i < len(args) else ('?',)
+    if t[0] == 'f':
+        return proj_field(subst_full(t[1], args), t[2])
+    return tuple(subst_full(x, args) if isinstance(x, tuple) else x for x in t)
+
+
+def is_straight_line(F, b, max_blocks=12):
+    n = 0
+    for bb in b['blocks']:
+        if bb['cleanup']:
+            continue
+        n += 1
+        if bb['term']['k'] == 'switch':
+            return False
+    return n <= max_blocks and not F.cfg(b).loops()
+
+
+def expand_local(F, term, allow, depth=0):
+    """inline calls to crate-local straight-line functions selected by allow(q) into the term (their return term, parameters
+    substituted); used where a rule states what a function *computes* and a maintainer may have routed it through a helper"""
+    if not isinstance(term, tuple) or not term or depth > 4:
+        return term
+    term = tuple(expand_local(F, x, allow, depth) if isinstance(x, tuple) else x for x in term)
+    if term[0] == 'call' and term[1] in F.bodies and allow(term[1]):
+        cb = F.bodies[term[1]]
+        if cb['kind'] != 'Closure' and is_straight_line(F, cb):
+            rt = F.prov(cb).of_local(0)
+            return expand_local(F, subst_full(rt, list(term[2])), allow, depth + 1)
+    return term
+
+
+def closure_result(F, clo, args, depth=0):
+    """return term of the closure aggregate `clo` applied to `args` (captured variables substituted; calls of captured closures resolved)"""
+    if not (isinstance(clo, tuple) and clo and clo[0] == 'aggr' and clo[1].startswith('closure:')) or depth > 4:
+        return None
+    cb = F.bodies.get(clo[1][len('closure:'):])
+    if cb is None:
+        return None
+    rt = F.prov(cb).of_local(0)
+    rt = subst_full(rt, [clo] + list(args))
+    d = unwrap_payload(rt)
+    if isinstance(d, tuple) and d and d[0] == 'call' and d[1] in ('std::ops::Fn::call', 'std::ops::FnMut::call_mut', 'std::ops::FnOnce::call_once') and len(d[2]) == 2:
+        inner = deep_unwrap(d[2][0])
+        at = deep_unwrap(d[2][1])
+        if isinstance(inner, tuple) and inner and inner[0] == 'aggr' and inner[1].startswith('closure:') and isinstance(at, tuple) and at[0] == 'aggr':
+            r = closure_result(F, inner, list(at[2]), depth + 1)
+            if r is not None:
+                return r
+    return rt
